@@ -351,6 +351,14 @@ Definition is_valid_firmware (m : mgr) (i : nat) (d : dev) : dev * res unit :=
       end
   end.
 
+(* original-flash-algo/src/manager.rs::check_crc_from_index(.., None, None, slot_start): header must parse, then the same loop *)
+Definition orig_check_crc (m : mgr) (i : nat) (d : dev) : dev * res unit :=
+  match load_header m i d with
+  | (d1, None) => (d1, RErr (last_err d1))
+  | (d1, Some None) => (d1, RErr MUnexpectedMissingHeader)
+  | (d1, Some (Some h)) => crc_valid m i h d1
+  end.
+
 Definition check_and_mark_done (m : mgr) (u : updater) (d : dev) : dev * res nat :=
   if negb (u_complete u) then (d, RErr MCheckFailNotDone) else
   match load_header m (u_fw u) d with
